@@ -22,6 +22,7 @@ TEXT = {
  'C14': ("delta obligations on every function that changes a provider counter: ShardPledge/ShardRelease (used, shard collateral), WorkerAppend/WorkerRelease (bytes, income rate), HandleExpiredShard, Renew (collateral sum)", "pool-wide totals are checked only through Add/RemoveVstorage frames"),
  'C15': ("unit obligations on RandomIndex, GetNextSuperNodes and RandomSP over an enumerated symbolic node population, ignore list, count and seed", "seed < 10^3, total <= 4, count <= 2, <= 2-3 nodes; floats as reals"),
  'C16': ("triples on AppendOrder / AppendShard / NewOrder (fresh ids, counters) and UpdateMeta (append exactly one history entry; force-push replaces only the latest)", "the base-version check of MsgStore is exercised by the C09 store obligation only"),
+ 'C18': ("round-trip obligations per module: real ExportGenesis, real Validate (node), real InitGenesis into an empty twin store family, then record-by-record comparison of what both serve (orders, shards, counters, nodes, pledges, debts, pool, schedules, models, aliases, workers; faults / fishing rewards / cursor for arbitrary keys)", "the DID module, bank balances of the module accounts, the JSON codec of the genesis file and the continuation (same later blocks) are outside: continuation follows from C01/C03 only by argument; <= 2 entries per prefix"),
  'C19': ("frame + validity obligation on MsgReportFaults: any recorded report implies a registered fishman reporter and an existing unexpired shard of the accused provider; nothing but fault records written, no transfer", "RecoverFaults / DoPenalty penalty caps are not yet built"),
  'C20': ("role obligations on the delegation hook: after AfterDelegationModified (clean process memory) the delegating node is super only if status mask, capacity threshold and share ratio hold, and an unqualified super node is demoted; plus the two-run obligation shared with C03", "validator-level hooks, Reset / Add- / RemoveVstorage promotion paths and second delegators are not built; the staking module is a declared-facts model"),
 }
@@ -37,7 +38,6 @@ for p in sorted(TEXT):
 na = [
  {"property_id": "C06", "reason": "the Σ-solvency obligations over whole module accounts (liabilities summed over all records) were not built in this session; escrow solvency is only used as an assumption by C11/C02 obligations. The technique applies (delta-sum form, DESIGN §4); it is unbuilt, not inapplicable."},
  {"property_id": "C17", "reason": "the DID handlers sit behind secp256k1 / EIP-191 / multibase / regexp parsing for which no intrinsic models were written in this session; only the clock dependence of MsgUpdate is checked (under C01). Unbuilt, not inapplicable."},
- {"property_id": "C18", "reason": "the export->validate->import round trip needs a second, empty store world in the engine, which was not built in this session. Unbuilt, not inapplicable."},
 ]
 m = {"version": 1, "setup_cmd": "./setup.sh",
      "hooks": {"guard": "verif", "enable": "no file under /repo is changed: harness files (package zzverif, //go:build verif) and one in-package accessor file are injected as overlays (packages.Config.Overlay for symbolic execution; go test -c -overlay -tags verif for native replay, where three sao-did files and the two clock-reading DID handlers are replaced by replay-oracle copies generated from the current sources)",
